@@ -46,6 +46,27 @@ TABLE.update({
              "of the same bytes and are validated against the model."),
 })
 
+TABLE.update({
+    'C02': dict(
+        technique="exhaustive enumeration of all valid encoding plans of small histories + Hypothesis-drawn plans of larger "
+                  "ones against a reference model of the TDMS inheritance rules (metamorphic: plan vs explicit encoding; "
+                  "fault injection of forbidden encodings)",
+        text="All histories of 2 segments (quick) / 3 segments (thorough) over 2 channels are encoded in every valid way "
+             "and read eagerly and lazily; thousands of random longer histories get drawn plans; forbidden encodings must "
+             "be rejected. Exhaustive for the stated bound, sampled beyond it.",
+        note="Trusts vf/plans.py (reference tracker of the inheritance rules) and vf/encode.py; 'rejected' = any exception."),
+    'C06': dict(
+        level='fault_enumeration',
+        technique="fault injection: every byte offset of each Hypothesis-generated file as a crash point, explicit-offset and "
+                  "length-unknown-marker variants; oracle = prefix / lower bound / len / lazy==eager / file_status rule "
+                  "from the model",
+        text="Crash-point enumeration: each generated file is cut at EVERY offset from 4 to its length (about 10^5 cut "
+             "files per quick run) and read eagerly and lazily; values are non-zero and position-unique so invented data "
+             "cannot pass as a prefix.",
+        note="Trusts vf/encode.py for segment boundaries; the amount recovered inside the cut segment is a statistic; marker "
+             "variant restricted as the statement says."),
+})
+
 PENDING_REASON = "check not built yet in this session (planned in DESIGN.md section 4); not claimed until it runs"
 
 
